@@ -135,6 +135,12 @@ impl SocketBackend for RepSocketBackend {
 #[async_trait]
 impl SocketSend for RepSocket {
     async fn send(&mut self, mut message: ZmqMessage) -> ZmqResult<()> {
+        if message.is_empty() {
+            return Err(ZmqError::ReturnToSender {
+                reason: "Unable to send a message without frames",
+                message,
+            });
+        }
         match self.current_request.take() {
             Some((peer_id, conn)) => {
                 let peer = self
